@@ -76,10 +76,7 @@ def showStrM : StrM → String
   | .sfx s ic => s!"({if ic then "isuffix" else "suffix"} {S s})"
   | .regex r => s!"(regex {S r.text})"
 
-def dotted (a : Nat) : String :=
-  s!"{a / 16777216 % 256}.{a / 65536 % 256}.{a / 256 % 256}.{a % 256}"
-
-def showCidr (c : Cidr) : String := s!"{dotted c.addr}/{c.len}"
+def showCidr (c : Cidr) : String := s!"{S (addrString c.v6 c.addr)}/{c.len}"
 
 mutual
 def showVal : ValM → String
@@ -167,8 +164,11 @@ def parseReq (toks : List String) : Request :=
     let f := e.1.1; let p := e.1.2.1; let t := e.1.2.2; let v := e.2
     ((f.toList, if p.isEmpty then [] else splitBar p),
      if t == "l" then MVal.strs (if v.isEmpty then [] else splitBar v) else MVal.str v.toList)
-  { srcIP := natTok ((get "sip").getD "0"), remoteIP := natTok ((get "rip").getD "0"),
-    dstIP := natTok ((get "dip").getD "0"), dstPort := natTok ((get "dport").getD "0"),
+  -- an address token: decimal IPv4 number, or `6:<decimal 128-bit number>`
+  let ipTok (t : String) : IP :=
+    if t.startsWith "6:" then { v6 := true, val := natTok (String.ofList (t.toList.drop 2)) } else { val := natTok t }
+  { srcIP := ipTok ((get "sip").getD "0"), remoteIP := ipTok ((get "rip").getD "0"),
+    dstIP := ipTok ((get "dip").getD "0"), dstPort := natTok ((get "dport").getD "0"),
     sni := gs "sni", peer := peer, http := http, metadata := metas }
 
 def hasRule (s : DState) : Bool :=
